@@ -209,6 +209,29 @@ pub mod datetime;
 pub mod error;
 pub mod timezone;
 
+/// Verification hooks (compiled only with `--cfg tz_rs_verif`, never in a shipped build)
+#[cfg(all(tz_rs_verif, feature = "std"))]
+#[doc(hidden)]
+pub mod verif_hooks {
+    use std::sync::OnceLock;
+    use std::time::Duration;
+
+    /// Injected clock: `Ok` is a duration after the Unix epoch, `Err` a duration before it
+    pub type ClockFn = fn() -> Result<Duration, Duration>;
+
+    static CLOCK: OnceLock<ClockFn> = OnceLock::new();
+
+    /// Install the injected clock (first call wins)
+    pub fn set_clock(clock: ClockFn) -> bool {
+        CLOCK.set(clock).is_ok()
+    }
+
+    /// Returns the injected clock if one was installed
+    pub(crate) fn clock() -> Option<ClockFn> {
+        CLOCK.get().copied()
+    }
+}
+
 #[doc(inline)]
 pub use datetime::{DateTime, UtcDateTime};
 
